@@ -160,6 +160,10 @@ func c14Run(inI interface{}, env *Env) *Failure {
 		manager := sa.tasksManager() // bound to the application scope, as pip:try does
 		ns := namespaces.NewNamespaces(pipservices.NamasepacesParams{})
 		var scopes []app.Scope
+		// the wait lists a caller hands in are views into one array of its own (a parsed
+		// command line, a plan): lists that share elements alias each other; the runner only
+		// reads them
+		waitLists := c14SharedWaitLists(in.Tasks)
 		var wg simrt.WaitGroup
 		wg.Add(in.Submitters)
 		for s := 0; s < in.Submitters; s++ {
@@ -193,7 +197,7 @@ func c14Run(inI interface{}, env *Env) *Failure {
 							In: gio.NewInput(strings.NewReader(t.body())), Out: gio.NewNilOutput(), Err: gio.NewNilOutput(),
 							CWD: sa.mapp.Filespaces().CWD(), Scope: ctxScope,
 						},
-						Name: t.Name, Namespaces: ns, Sandbox: "self", Lock: lock, Wait: t.Wait,
+						Name: t.Name, Namespaces: ns, Sandbox: "self", Lock: lock, Wait: waitLists[t.Name],
 					})
 					if err != nil {
 						rejected[t.Name] = err
@@ -448,4 +452,60 @@ func init() {
 			"with a shared context one failing task cancels its running siblings; there only the order / prefix / prerequisite clauses are judged, the exact outcome per task only with isolated contexts",
 		},
 	})
+}
+
+
+// c14SharedWaitLists lays the wait lists of all tasks out in one backing array; a list that
+// already occurs there as a run of neighbours is a sub-slice of that run (aliasing), and a
+// list whose beginning equals the end of the array overlaps it.
+func c14SharedWaitLists(tasks []c14Task) map[string][]string {
+	var all []string
+	type span struct{ from, n int }
+	spans := map[string]span{}
+	for _, t := range tasks {
+		n := len(t.Wait)
+		if n == 0 {
+			spans[t.Name] = span{0, 0}
+			continue
+		}
+		at := -1
+		for i := 0; i+n <= len(all) && at < 0; i++ {
+			match := true
+			for k := 0; k < n; k++ {
+				if all[i+k] != t.Wait[k] {
+					match = false
+					break
+				}
+			}
+			if match {
+				at = i
+			}
+		}
+		if at < 0 {
+			// longest overlap of the list's beginning with the array's end
+			for ov := min(n-1, len(all)); ov > 0 && at < 0; ov-- {
+				match := true
+				for k := 0; k < ov; k++ {
+					if all[len(all)-ov+k] != t.Wait[k] {
+						match = false
+						break
+					}
+				}
+				if match {
+					at = len(all) - ov
+					all = append(all, t.Wait[ov:]...)
+				}
+			}
+		}
+		if at < 0 {
+			at = len(all)
+			all = append(all, t.Wait...)
+		}
+		spans[t.Name] = span{at, n}
+	}
+	out := map[string][]string{}
+	for name, sp := range spans {
+		out[name] = all[sp.from : sp.from+sp.n]
+	}
+	return out
 }
